@@ -70,9 +70,24 @@ def rows(doc, name):
     return [v[i * per:(i + 1) * per] for i in range(dims[0])]
 
 
-def pmap(fn, items, jobs=None):
-    with cf.ThreadPoolExecutor(jobs or vlib.NJOBS) as ex:
-        return list(ex.map(fn, items))
+def pmap(fn, items, jobs=None, stable_wisdom=True):
+    """run fn over items on all cores.  If an FFTW wisdom file was written while the jobs were in flight (cold cache, transform length not
+    covered by the warm-up), runs of that length may have used different plans: the whole pass is repeated until no file changes, so that
+    results which are compared bitwise were computed from the same wisdom.  fn must be a pure function of its item."""
+    items = list(items)
+    for attempt in range(4):
+        w0 = vlib.wisdom_state()
+        with cf.ThreadPoolExecutor(jobs or vlib.NJOBS) as ex:
+            out = list(ex.map(fn, items))
+        if not stable_wisdom:
+            return out
+        w1 = vlib.wisdom_state()
+        if w1 == w0:
+            return out
+        changed = sorted(set(x[0] for x in set(w1) ^ set(w0)))
+        vlib.WISDOM_REPEATS.append((getattr(fn, "__qualname__", "job"), attempt, changed[:12]))
+        vlib.log("[wisdom] %d wisdom file(s) written during a parallel phase (%s) - repeating it" % (len(changed), ", ".join(changed[:6])))
+    raise SystemExit("FFTW wisdom files still change after 4 passes of a parallel phase - another process is writing to %s" % vlib.XDG)
 
 
 def warm(binary, argsets, name="warm"):
